@@ -585,3 +585,31 @@ UNITS.append(Unit("init.init_helper", "initargs.c", enforce="init_helper", lifts
     ], loops={1: LOOP_INITARGS, "count": 1})}, funcs=[IRT + ": pika::detail::init_helper"], min_obligations=8,
     doc="I: main(argc, argv) of the application receives exactly the arguments that do not START with --pika: (and the values of "
         "--pika:positional=), unchanged and in order, argv[argc] == nullptr"))
+
+
+# ---- partitioner::setup_schedulers (added by main after seeded change C16-6 was missed): resolved pika.scheduler -> policy of the running pools ----
+DP_CPP = "libs/pika/resource_partitioner/src/detail_partitioner.cpp"
+_SCHED_NAMES = ["local", "local-priority-fifo", "local-priority-lifo", "static", "static-priority", "abp-priority-fifo", "abp-priority-lifo", "shared-priority"]
+_PREFIX_TABLE = "{" + ",".join("{" + ",".join("1" if b.startswith(a) else "0" for b in _SCHED_NAMES) + "}" for a in _SCHED_NAMES) + "}"
+def _name_id(m):
+    if m.group(1) not in _SCHED_NAMES:
+        raise LiftError("setup_schedulers tests an undocumented scheduler name %r" % m.group(1))
+    return "value_is_prefix_of(&%s, N_%s)" % (m.group(2), m.group(1).replace("-", "_"))
+LOOP_SETUPSCHED = ("__CPROVER_assigns(i, g_v_policy, g_default_seen, g_default_seen_valid)\n"
+                   "__CPROVER_loop_invariant(i <= npools && self->mtx_.locked && (g_default_seen_valid ==> g_default_seen == default_scheduler) && "
+                   "g_v_policy == ((g_v < i && g_v_policy0 == SP_unspecified) ? default_scheduler : g_v_policy0))")
+UNITS.append(Unit("rp.setup_schedulers", "setupsched.c", defines=["PREFIX_TABLE=" + _PREFIX_TABLE], enforce="setup_schedulers", lifts={"body": Lift(DP_CPP,
+    r"void partitioner::setup_schedulers\(\)", rules=[
+        Sub(r"\bscheduling_policy (\w+);", r"int \1 = SP_unspecified;", 1),
+        Sub(r"std::string (\w+) = rtcfg_\.get_entry\(\"pika\.scheduler\", std::string\(\)\);", r"struct str \1 = rtcfg_get_scheduler(self);", 1),
+        Sub(r"0 == std::string\(\"([\w-]+)\"\)\.find\((\w+)\)", _name_id, "+"),
+        Sub(r"\bscheduling_policy::(\w+)", r"SP_\1", None),
+        Sub(r"\bthrow pika::detail::command_line_error\((?:[^;\"]|\"(?:[^\"\\]|\\.)*\")*\);", "{ vx_exc = true; return; }", None),
+        Guard(r"std::(?:lock_guard|unique_lock|scoped_lock)\s*(?:<[^;()]*>)?\s*\w+\s*\(\s*(\w+)\s*\)\s*;", r"mutex_lock(&self->\1);", r"mutex_unlock(&self->\1);", 1),
+        Sub(r"\binitial_thread_pools_\.size\(\)", "pools_size(self)", None),
+        Sub(r"\binitial_thread_pools_\[(\w+)\]\.scheduling_policy_ = (\w+);", r"pool_policy_set(self, \1, \2);", None),
+        Sub(r"\binitial_thread_pools_\[(\w+)\]\.scheduling_policy_", r"pool_policy_get(self, \1)", None),
+        Sub(r"(?<![\w.>:])unspecified\b", "SP_unspecified", None),
+    ], loops={1: LOOP_SETUPSCHED, "count": 1})}, funcs=[DP_CPP + ": resource::detail::partitioner::setup_schedulers"], min_obligations=10,
+    doc="F+I: each documented scheduler name written in full selects the policy of that name; a value that matches no name stops start-up; "
+        "only pools without an explicit scheduler get the default (symbolic number of pools)"))
